@@ -29,7 +29,9 @@ impl std::fmt::Display for RcErr {
 
 impl RawClient {
     pub fn new(sock: UnixStream) -> Self {
-        let _ = sock.set_read_timeout(Some(Duration::from_secs(20)));
+        // short slices: read_exact() adds them up to 20 s, but gives up at once when a library thread has panicked
+        // (a daemon thread that died in a panic leaves the connection open and would never answer)
+        let _ = sock.set_read_timeout(Some(Duration::from_millis(100)));
         RawClient { sock }
     }
 
@@ -43,6 +45,7 @@ impl RawClient {
 
     fn read_exact(&self, n: usize, first: bool, fds: &mut Vec<OwnedFd>) -> Result<Vec<u8>, RcErr> {
         let mut out = Vec::with_capacity(n);
+        let t0 = std::time::Instant::now();
         while out.len() < n {
             match rawpeer::recv_once(self.sock.as_raw_fd(), n - out.len(), if first && out.is_empty() { 64 } else { 8 }, 0) {
                 Ok((b, f, _)) => {
@@ -52,7 +55,12 @@ impl RawClient {
                     fds.extend(f);
                     out.extend_from_slice(&b);
                 }
-                Err(e) if e.kind() == io::ErrorKind::WouldBlock || e.kind() == io::ErrorKind::TimedOut => return Err(RcErr::Timeout),
+                Err(e) if e.kind() == io::ErrorKind::WouldBlock || e.kind() == io::ErrorKind::TimedOut => {
+                    let panicked = crate::engine_panic::PANICS.lock().map(|g| !g.is_empty()).unwrap_or(true);
+                    if panicked || t0.elapsed() > Duration::from_secs(20) {
+                        return Err(RcErr::Timeout);
+                    }
+                }
                 Err(e) if e.kind() == io::ErrorKind::ConnectionReset => return Err(RcErr::Closed),
                 Err(e) => return Err(RcErr::Io(e.to_string())),
             }
